@@ -16,6 +16,14 @@ COMMON_ASSUMPTIONS = [
 
 # theorem names that must be present in Props/<id>.lean (guards against an obligation silently disappearing)
 EXPECTED_THEOREMS = {
+    "C13": ["read_is_a_socket_read", "every_size_is_possible", "line_reader_oracle", "head_reader_oracle", "small_body_oracle", "chunked_zero_counterexample", "chunk_crlf_reader_counterexample", "body_reader_oracle_is_false", "body_reader_oracle_partial", "body_reader_oracle_nonchunked", "chunk_crlf_counterexample", "runO_eq_run_is_false", "segmentation_independent_is_false", "runO_eq_run_masked", "runO_eq_run_partial", "runO_eq_run_partial_simple", "segmentation_independent_masked", "segmentation_independent_partial"],
+    "C01": ["seq_order", "no_overtaking", "dropped_prefix_closed", "sock_is_prefix", "flush_delivers", "first_alive_has_turn"],
+    "C06": ["one_final_response", "dropped_gets_500", "nothing_after_consumption", "interim_only_first", "finish_status_single", "drop_releases_successor"],
+    "C08": ["waiting_count_exact", "queued_tasks_are_claimed", "every_queued_task_can_start", "dispatch_never_blocks", "task_conservation", "task_started_at_most_once"],
+    "C11": ["released_at_parse_iff", "small_body_limit", "buffered_is_small", "ahead_step_small", "ahead_blocks_only_on_streamed_body", "ahead_heads_prefix_of_run"],
+    "C14": ["declared_length_allocation_bounded", "accepted_content_length_fits", "accepted_chunk_size_fits", "discard_read_size_bounded", "limited_read_request_bounded", "te_comparison_consistent", "nan_is_rejected", "run_always_ends_regularly"],
+    "C15": ["respond_swallows_client_errors", "incomplete_head_not_delivered", "no_terminator_no_head", "incomplete_small_body_not_delivered", "head_in_prefix_is_head", "body_read_never_blocks_when_closed", "read_up_to_never_blocks_when_closed", "drain_terminates_when_closed", "handle_never_blocks_when_closed"],
+    "C20": ["min_threads_value", "idle_period_value", "active_count_exact", "untimed_waiters_bounded", "idle_pool_at_baseline", "timed_out_worker_exits", "retire_no_task_lost", "drop_wakes_everybody", "accept_loop_stops", "handed_out_still_answerable", "no_accept_after_exit"],
     "C07": ["queue_exactly_once", "log_values_are_taken", "no_lost_wakeup", "quiescent_blocked_implies_empty", "look_enabled"],
     "C17": ["token_conservation", "tokens_preserve_requests", "try_recv_never_blocks", "recv_empty_only_by_token", "recv_timeout_bounds"],
     "C02": ["head_roundtrip", "method_table", "delivered_is_parsed"],
@@ -199,6 +207,66 @@ PROPS = {
         "required_tags": ["timeoutwake:1", "burstlive:gt4", "burstlive:le4"],
         "partial": ["theorem: at most MIN_THREADS untimed waiters / idle pool at baseline / retirement strands no task / accept loop stops after at most one more accept / handed-out requests stay answerable",
                     "observed only: connect() refused after drop, UNIX socket path removed, real thread counts (/proc/self/task)"],
+        "assumptions": CTL_ASSUMPTIONS,
+    },
+    "C01": {
+        "batches": lambda tier: ctl_batches("mt", 800, 30000, per=200)(tier) + conn_batches([("c10", 100)], [("c10", 600), ("mixed", 1500)])(tier),
+        "replay_bin": "controlled", "need": ["wire", "seq", "eof", "nohang", "results", "noabort"], "agr_need": ["wire", "seq", "eof"],
+        "rule": "whole server of the generated copy under the deterministic scheduler: 2..6 pipelined requests, each answered on its own handler thread after a random virtual delay "
+                "(every permutation of answering order arises) or all held by one thread in arrival order; respond (small, >1 KiB, chunked), into_writer with multi-part "
+                "writes +- flush, drop; random schedules incl. baton-keeping bias; the client-side byte stream must decode, in request order, to exactly the expected messages; "
+                "plus the pristine malformed-pipeline batch (417/400 must not overtake earlier answers)",
+        "required_tags": ["fam:mt", "fin:writer", "fin:drop", "fin:respond", "n:5"],
+        "partial": [], "assumptions": CTL_ASSUMPTIONS + CONN_ASSUMPTIONS,
+    },
+    "C06": {
+        "batches": lambda tier: ctl_batches("mt", 800, 30000, per=200)(tier) + conn_batches([("c09", 200), ("mixed", 150)], [("c09", 2000), ("mixed", 2000)])(tier),
+        "replay_bin": "controlled", "need": ["wire", "seq", "results", "nohang", "noabort"], "agr_need": ["wire", "seq", "eof"],
+        "rule": "handler programs {read none/part/all} x {respond, into_writer+writes+drop, upgrade, drop, panic while holding the request} for each of n pipelined requests, "
+                "sequentially (pristine, real sockets) and on concurrent handler threads (controlled); predicate: the client stream holds exactly one final response per "
+                "delivered request, 500 exactly at the dropped positions, later responses not held up",
+        "required_tags": ["fam:mt", "fin:drop", "fin:writer", "st:500"],
+        "partial": [], "assumptions": CTL_ASSUMPTIONS + CONN_ASSUMPTIONS,
+    },
+    "C11": {
+        "batches": ctl_batches("ahead", 600, 20000, per=200),
+        "replay_bin": "controlled", "need": ["ahead", "nohang", "seq", "wire", "noabort"], "agr_need": ["ahead", "seq", "wire"],
+        "rule": "pipelines of 2..8 requests with bodies {none, 1, 2..1023, 1024} and optionally a first request with a 1025..9000-byte or chunked body that the application reads "
+                "to EOF on arrival; the application collects ALL requests before answering any (a deadlock — detected by the scheduler — iff read-ahead fails); "
+                "count of requests obtained while none is answered compared with the read-ahead model",
+        "required_tags": ["streamed_first:0", "streamed_first:1", "n:5"],
+        "partial": [], "assumptions": CTL_ASSUMPTIONS,
+    },
+    "C13": {
+        "batches": ctl_batches("seg", 40, 1500, per=4),
+        "replay_bin": "controlled", "need": ["same", "nohang", "noabort"], "need_intent": False, "agr_need": ["heads", "bodies", "seq", "wire", "eof"],
+        "rule": "for each conversation of a generated corpus (all framing kinds, malformed classes, upgrade, Expect): unsplit, EVERY single split point (conversations <= 260 bytes), "
+                "one byte at a time, random 2..8-way splits, the 1 KiB buffer boundaries; the in-memory socket returns exactly one written segment per read; metamorphic "
+                "comparison with the unsplit run and comparison of every run with the flat model",
+        "required_tags": ["fam:split", "fam:unsplit", "body:chunked", "body:limited", "body:buffered", "class:e400"],
+        "partial": [], "assumptions": CTL_ASSUMPTIONS,
+    },
+    "C14": {
+        "batches": lambda tier: [{"bin": "c14", "args": ["parent", 6000 if tier == "thorough" else 720], "name": "c14 child processes"}],
+        "replay_bin": "c14", "need": ["nopanic", "noabort", "alloc", "nohang"], "need_intent": False, "agr_need": ["heads", "bodies", "seq", "wire", "eof"],
+        "rule": "adversarial inputs against the pristine crate, each case in a child process with a process-wide panic hook and a counting global allocator: Content-Length 0 .. "
+                "beyond usize::MAX (body absent / short), chunk sizes up to and beyond 16 hex digits, 1000..20000 headers, 0.1..3 MB lines, NUL/control/non-ASCII garbage, "
+                "truncation everywhere, TE lists with up to 200 NaN/inf/exponent q-values, corner headers, 1000-request pipelines; x handlers {no read, partial, full read} x {respond, drop}; "
+                "predicate: no abnormal exit, no panic anywhere in the process, largest single allocation <= 256 KiB + 16 x bytes sent + 8 x bytes received",
+        "required_tags": ["tag:cl", "tag:chunksize", "tag:te", "tag:line", "tag:headers", "tag:garbage", "tag:truncated"],
+        "partial": ["theorem: sizes the modelled logic asks for are bounded (small-body buffer <= 1024, discard reads <= 4 KiB, accepted lengths representable), TE comparison is a strict weak order, the model is total",
+                    "observed only: completeness of the panic inventory, allocator behaviour, process exit status"],
+        "assumptions": CONN_ASSUMPTIONS + ["the allocation bound includes the harness's own buffers for the observation (hence the terms in bytes sent/received)"],
+    },
+    "C15": {
+        "batches": lambda tier: ctl_batches("cut", 15, 600, per=3)(tier) + ctl_batches("resperr", 400, 10000, per=200)(tier),
+        "replay_bin": "controlled", "need": ["results", "nohang", "fresh", "prefix", "nopanic", "noabort"], "need_intent": False, "agr_need": ["heads", "bodies", "seq", "wire", "eof"],
+        "rule": "for each conversation: EVERY prefix length (conversations <= 400 bytes; 60 sampled otherwise) followed by half-close, full close or reset, on the in-memory network; "
+                "for responses: server writes failing with BrokenPipe / ConnectionReset / ConnectionAborted / ConnectionRefused after 0..1500 bytes; afterwards a fresh connection must be served; "
+                "predicate: delivered requests are a prefix of the full-stream delivery, every respond() returned Ok, nothing hangs, nothing panics",
+        "required_tags": ["fam:cut", "fam:resperr", "mode:reset", "mode:close", "mode:halfclose", "cut:nothing", "cut:some", "werr:1"],
+        "partial": ["theorem: incomplete head / incomplete small body never delivered, prefix stability of heads, body reads and discard loops never block on a closed stream, respond swallows client-closing errors",
+                    "observed only: OS error kinds for a vanished peer, RST semantics, that the accept loop keeps serving (fresh connection)"],
         "assumptions": CTL_ASSUMPTIONS,
     },
 }
